@@ -31,11 +31,87 @@ def run(ck: Check, repo: Repo) -> None:
                      "match while an algorithm registers several optimizers per lr)")
     ck.rule("C06.5", "re-created optimizers read networks and learning rate from the individual at call time; configured names are "
                      "checked against the agent at construction")
+    # the post-mutation work of Mutations.mutation (hooks that consume hyper-parameters, e.g. lamb -> sigma_inv of the bandits) also runs after an
+    # RL-hyper-parameter mutation: obligations of C02.3 on the population loop (nested check first: it resets the per-run pattern environments)
+    from dataclasses import replace
+    from . import c02
+    sub = Check("C02", ck.tier, ck.repo_root)
+    sub.known = []
+    sub.rule("C02.3", "shared")
+    c02._shared_rebuilt(sub, repo)
+    ck.rule("C06.7", "the new value is what the agent subsequently uses, also where a hook derives state from it: Mutations.mutation runs the individual's mutation "
+                     "hooks and the shared-network rebuild on every iteration whatever kind of mutation was applied (obligations of C02.3, shared with the C02 check)")
+    taken = [replace(o, rule="C06.7") for o in sub.obs if o.rule == "C02.3"]
+    if len(taken) < 6:
+        raise AnalysisError(f"C06.7: only {len(taken)} obligations taken over from C02.3")
+    ck.obs.extend(taken)
+    ck.rule("C06.8", "an optimizer is always built with the learning rate it is given: every parameter group / optimizer constructor receives the `lr` argument, and "
+                     "the stored optimizer_kwargs (kept by the wrapper and the registry and handed back by reinit_opt and clone) are never written to")
+    _wrapper_kwargs(ck, repo)
     _mutate(ck, repo)
     _hp_mutation(ck, repo)
     _reinit_opt(ck, repo)
 
     _lr_names(ck, repo)
+
+_DICT_WRITES = {"setdefault", "update", "pop", "popitem", "clear", "__setitem__", "__delitem__"}
+
+
+def _wrapper_kwargs(ck: Check, repo: Repo) -> None:
+    mod = repo.mod("agilerl.algorithms.core.wrappers")
+    fns: List[Fn] = list(mod.functions.values()) + [m for c in mod.classes.values() for m in c.methods.values()]
+    n_sites = 0
+    for fn in fns:
+        has_param = "optimizer_kwargs" in fn.params
+        reads_attr = any(isinstance(x, ast.Attribute) and x.attr == "optimizer_kwargs" for x in ast.walk(fn.node))
+        if not (has_param or reads_attr):
+            continue
+        # names that may denote the stored kwargs (or one element of a list of them)
+        roots: Set[str] = {"optimizer_kwargs"} if has_param else set()
+
+        def denotes(e: ast.AST) -> bool:
+            if isinstance(e, ast.Name):
+                return e.id in roots
+            if isinstance(e, ast.Attribute):
+                return e.attr == "optimizer_kwargs"
+            if isinstance(e, ast.Subscript):
+                return denotes(e.value)
+            if isinstance(e, ast.IfExp):
+                return denotes(e.body) or denotes(e.orelse)
+            return False
+        changed = True
+        while changed:
+            changed = False
+            for x in walk_no_nested(fn.node):
+                if isinstance(x, ast.Assign) and len(x.targets) == 1 and isinstance(x.targets[0], ast.Name) and x.targets[0].id not in roots and denotes(x.value):
+                    roots.add(x.targets[0].id)
+                    changed = True
+        writes: List[ast.AST] = []
+        for x in walk_no_nested(fn.node):
+            if isinstance(x, ast.Call) and isinstance(x.func, ast.Attribute) and x.func.attr in _DICT_WRITES and denotes(x.func.value):
+                writes.append(x)
+            elif isinstance(x, (ast.Assign, ast.AugAssign, ast.Delete)):
+                tg = x.targets if isinstance(x, (ast.Assign, ast.Delete)) else [x.target]
+                for t in tg:
+                    if isinstance(t, ast.Subscript) and denotes(t.value):
+                        writes.append(x)
+        n_sites += 1
+        ck.ob("C06.8", fn, writes[0] if writes else fn.node, not writes, f"{fn.qualname} does not write to the optimizer keyword arguments it was given / stores",
+              detail=f"`{short(writes[0], 70)}` changes the dictionary that the wrapper and the registry keep: whatever it records (a learning rate) is handed to every later "
+                     f"re-creation of the optimizer, after an lr mutation too" if writes else "", construct=f"{fn.qualname}: writes to optimizer_kwargs")
+        # every group / constructor gets lr from the lr argument
+        if "lr" in fn.params:
+            groups = [d for d in walk_no_nested(fn.node) if isinstance(d, ast.Dict) and any(const_value(k) == "params" for k in d.keys if k is not None)]
+            ctors = [c for c in calls_in(fn.node) if any(k.arg is None and denotes(k.value) for k in c.keywords)]
+            for d in groups:
+                v = next((v for k, v in zip(d.keys, d.values) if k is not None and const_value(k) == "lr"), None)
+                ck.ob("C06.8", fn, d, isinstance(v, ast.Name) and v.id == "lr", f"{fn.qualname}: every parameter group is given the `lr` argument explicitly",
+                      detail="" if v is not None else "the group has no \"lr\" entry of its own: its learning rate is whatever the keyword dictionary carries")
+            for c in ctors:
+                v = get_kw(c, "lr", None)
+                ck.ob("C06.8", fn, c, isinstance(v, ast.Name) and v.id == "lr", f"{fn.qualname}: the optimizer constructor is given the `lr` argument explicitly")
+    ck.floor("C06.8", n_sites, 3, "functions of the optimizer wrapper module that handle optimizer_kwargs")
+
 
 def _is_attr(tb: TermBuilder, p: Poly, name: str) -> bool:
     a = single_atom(tb, p)
@@ -431,6 +507,11 @@ def _reinit_opt(ck: Check, repo: Repo) -> None:
 _MF = "agilerl/hpo/mutation.py"
 _RF = "agilerl/algorithms/core/registry.py"
 VARIANTS = [
+    ("wrapper-setdefault-lr-into-stored-kwargs", "agilerl/algorithms/core/wrappers.py", '        opt_args.append({"params": net.parameters(), "lr": lr, **kwargs})', '        kwargs.setdefault("lr", lr)\n        opt_args.append({"params": net.parameters(), **kwargs})', "fire", "C06.8"),
+    ("wrapper-single-ctor-lr-from-kwargs", "agilerl/algorithms/core/wrappers.py", "    return optimizer_cls(network.parameters(), lr=lr, **optimizer_kwargs)", "    return optimizer_cls(network.parameters(), **optimizer_kwargs)", "fire", "C06.8"),
+    ("wrapper-kwargs-copied-first-ok", "agilerl/algorithms/core/wrappers.py", '        opt_args.append({"params": net.parameters(), "lr": lr, **kwargs})', '        group = {"params": net.parameters(), "lr": lr, **kwargs}\n        opt_args.append(group)', "silent", None),
+    ("mutation-hooks-skipped-after-hp-mutation", _MF, "            individual.mutation_hook()", "            if individual.mut not in registry.hp_config.names():\n                individual.mutation_hook()", "fire", "C06.7"),
+
     ("lr-mutation-reloads-old-optimizer-state", _MF, "                    # Reinitialise every optimizer that uses the new learning rate\n                    self.reinit_opt(individual, optimizer=opt_config)", "                    old_state = getattr(individual, opt_config.name).state_dict()\n                    self.reinit_opt(individual, optimizer=opt_config)\n                    getattr(individual, opt_config.name).load_state_dict(old_state)", "fire", "C06.4"),
     ("wrapper-ignores-explicit-lr-name", "agilerl/algorithms/core/wrappers.py", "            self.lr_name = (\n                lr_name\n                if lr_name is not None\n                else self._infer_lr_name(parent_container)\n            )", "            self.lr_name = self._infer_lr_name(parent_container)", "fire", "C06.6"),
     ("ddpg-critic-optimizer-lr-name-inferred", "agilerl/algorithms/ddpg.py", "            lr=lr_critic,\n            lr_name=\"lr_critic\",\n", "            lr=lr_critic,\n", "fire", "C06.6"),
